@@ -77,6 +77,9 @@ type ruleDesc struct {
 	Cons  []consDesc `json:"constraints,omitempty"`
 	Loc   []string   `json:"location_labels,omitempty"`
 	Iso   string     `json:"isolation_level,omitempty"`
+	// key range in region ids: [StartID, EndID), 0 = unbounded (keys are the "%20d" rendering of an id)
+	StartID uint64 `json:"start_region_id,omitempty"`
+	EndID   uint64 `json:"end_region_id,omitempty"`
 }
 
 type switches struct {
@@ -97,7 +100,8 @@ type world struct {
 	Switches             switches    `json:"switches"`
 	LowSpaceRatio        float64     `json:"low_space_ratio"`
 	ReplicaScheduleLimit int         `json:"replica_schedule_limit"`
-	Rules                string      `json:"rules"` // off | default | custom
+	Scale                string      `json:"scale,omitempty"` // "" | large
+	Rules                string      `json:"rules"`           // off | default | custom
 	RuleSet              []ruleDesc  `json:"rule_set,omitempty"`
 	Stores               []storeDesc `json:"stores"`
 }
@@ -115,6 +119,11 @@ func (w *world) store(id uint64) *storeDesc {
 type kase struct {
 	World  *world `json:"world"` // the cluster as it is at the time of the check
 	Region string `json:"region"`
+	// region id (0 = 1), conf_ver (0 = 1), "region loaded without a leader", id-allocation fault armed for which call
+	RegionID  uint64 `json:"region_id,omitempty"`
+	ConfVer   uint64 `json:"conf_ver,omitempty"`
+	NoLeader  bool   `json:"no_leader,omitempty"`
+	FailAlloc string `json:"fail_alloc,omitempty"` // "" | direct | controller | both
 	// the history that led there (one long-lived checker): the initial cluster and the rounds so far
 	Initial *world      `json:"initial_world,omitempty"`
 	History []roundDesc `json:"history,omitempty"`
@@ -124,11 +133,20 @@ type kase struct {
 // ---- generators -------------------------------------------------------------------------------------------
 
 var (
-	zoneNames = []string{"z1", "z2", "z3", "z4"}
-	rackNames = []string{"r1", "r2"}
-	hostNames = []string{"h1", "h2", "h3"}
+	// small worlds use the first 4 / 2 / 3 names; large worlds many, with names that are prefixes of each other
+	zoneNames = numbered("z", 16)
+	rackNames = numbered("r", 4)
+	hostNames = numbered("h", 120)
 	labelSets = [][]string{nil, {"zone"}, {"zone", "host"}, {"zone", "rack", "host"}, {"rack", "host"}, {"host"}, {"zone", "rack"}}
 )
+
+func numbered(prefix string, n int) []string {
+	var out []string
+	for i := 1; i <= n; i++ {
+		out = append(out, fmt.Sprintf("%s%d", prefix, i))
+	}
+	return out
+}
 
 func wpickInt(rng *rand.Rand, vals []int, w []int) int {
 	t := 0
@@ -153,7 +171,7 @@ func wpickStr(rng *rand.Rand, vals []string, w []int) string {
 	return vals[wpickInt(rng, idx, w)]
 }
 
-func genWorld(rng *rand.Rand) *world {
+func genWorld(rng *rand.Rand, large bool) *world {
 	w := &world{Mode: allModes[rng.Intn(len(allModes))]}
 	w.MaxReplicas = wpickInt(rng, []int{1, 2, 3, 4, 5}, []int{8, 14, 40, 14, 24})
 	w.LocationLabels = append([]string(nil), labelSets[wpickInt(rng, []int{0, 1, 2, 3, 4, 5, 6}, []int{15, 20, 25, 20, 7, 7, 6})]...)
@@ -173,6 +191,11 @@ func genWorld(rng *rand.Rand) *world {
 	// stores
 	S := 3 + rng.Intn(7)
 	nz, nr, nh := 1+rng.Intn(4), 1+rng.Intn(2), 1+rng.Intn(3)
+	if large {
+		w.Scale = "large"
+		S = []int{30, 64, 100, 129, 257}[wpickInt(rng, []int{0, 1, 2, 3, 4}, []int{30, 25, 20, 15, 10})]
+		nz, nr, nh = 5+rng.Intn(12), 1+rng.Intn(4), 10+rng.Intn(111)
+	}
 	pGood := []int{45, 65, 85, 100}[rng.Intn(4)]
 	for i := 1; i <= S; i++ {
 		w.Stores = append(w.Stores, genStore(rng, w, uint64(i), nz, nr, nh, rng.Intn(100) < pGood))
@@ -184,16 +207,19 @@ func genWorld(rng *rand.Rand) *world {
 		f.AvailGiB = f.CapGiB
 		z, r := "zf", "rf"
 		if rng.Intn(2) == 0 {
-			z = zoneNames[rng.Intn(len(zoneNames))]
+			z = zoneNames[rng.Intn(nz)]
 		}
 		if rng.Intn(2) == 0 {
-			r = rackNames[rng.Intn(len(rackNames))]
+			r = rackNames[rng.Intn(nr)]
 		}
 		f.Labels = []labelKV{{"zone", z}, {"rack", r}, {"host", fmt.Sprintf("hf%d", S+1)}}
 		w.Stores = append(w.Stores, f)
 	}
 	if w.Rules == "custom" {
 		w.RuleSet = genRules(rng, w, nz)
+	}
+	if large && w.Rules != "off" {
+		w.RuleSet = append(w.RuleSet, genRangedRules(rng, nz)...)
 	}
 	return w
 }
@@ -340,6 +366,41 @@ func genRules(rng *rand.Rand, w *world, nz int) []ruleDesc {
 	return out
 }
 
+// regionBase: ids of the checked regions start here; rules on key ranges below / far above are unrelated.
+const regionBase = uint64(1000)
+
+// genRangedRules: many rules on key ranges (beyond any plausible batch size, ids that are prefixes of each
+// other): most of them on ranges no checked region lies in, some on sub-ranges of the checked regions.
+func genRangedRules(rng *rand.Rand, nz int) []ruleDesc {
+	n := []int{20, 101, 300, 1100}[wpickInt(rng, []int{0, 1, 2, 3}, []int{35, 35, 25, 5})]
+	var out []ruleDesc
+	for i := 1; i <= n; i++ {
+		r := ruleDesc{ID: fmt.Sprintf("k%d", i), Role: wpickStr(rng, []string{"learner", "follower", "voter"}, []int{50, 25, 25}), Count: 1}
+		switch rng.Intn(3) {
+		case 0:
+			r.Cons = []consDesc{{Key: "zone", Op: "in", Values: []string{zoneNames[rng.Intn(nz)], zoneNames[rng.Intn(nz)]}}}
+		case 1:
+			r.Cons = []consDesc{{Key: "zone", Op: "notIn", Values: []string{zoneNames[rng.Intn(nz)]}}}
+		}
+		if rng.Intn(2) == 0 {
+			r.Loc = []string{"zone", "host"}
+		}
+		switch x := rng.Intn(100); {
+		case x < 45: // below the checked regions
+			a := uint64(1 + rng.Intn(990))
+			r.StartID, r.EndID = a, a+uint64(1+rng.Intn(9))
+		case x < 90: // far above
+			a := uint64(1000000 + rng.Intn(1000000))
+			r.StartID, r.EndID = a, a+uint64(1+rng.Intn(1000))
+		default: // a sub-range of the checked regions
+			a := regionBase + uint64(rng.Intn(150))
+			r.StartID, r.EndID = a, a+uint64(1+rng.Intn(40))
+		}
+		out = append(out, r)
+	}
+	return out
+}
+
 const idBase = uint64(1) << 40 // region peer ids live far away from the mock allocator's 1,2,3,...
 
 // genRegion draws a region over the world's stores: peers, learners, leader, down / pending marks.
@@ -476,12 +537,40 @@ func layoutString(specs []sim.PeerSpec) string {
 		if s.Pending {
 			x += "?"
 		}
+		if s.ID != 0 && s.ID != idBase+s.Store {
+			x += fmt.Sprintf("#%d", s.ID)
+		}
 		b = append(b, x)
 	}
 	return strings.Join(b, " ")
 }
 
+// regionDesc is one region handed to the checkers in a round.
+type regionDesc struct {
+	ID        uint64 `json:"id"`
+	ConfVer   uint64 `json:"conf_ver,omitempty"`
+	Layout    string `json:"layout"`
+	NoLeader  bool   `json:"no_leader,omitempty"`
+	FailAlloc string `json:"fail_alloc,omitempty"`
+	Revisit   bool   `json:"revisit,omitempty"`
+}
+
+// layoutOf renders a simulated region with explicit peer ids.
+func layoutOf(r *sim.Region) string {
+	var specs []sim.PeerSpec
+	for _, p := range r.Peers {
+		specs = append(specs, sim.PeerSpec{Store: p.StoreId, Role: p.Role, ID: p.Id, Leader: p.StoreId == r.LeaderStore,
+			Down: r.Down[p.Id], Pending: r.Pending[p.Id]})
+	}
+	return layoutString(specs)
+}
+
 func regionFromLayout(layout string) (*sim.Region, error) {
+	return regionFromDesc(1, 0, layout)
+}
+
+// regionFromDesc builds the simulated region: peers without an explicit id get idBase + store.
+func regionFromDesc(id, confVer uint64, layout string) (*sim.Region, error) {
 	specs, err := sim.ParseLayout(layout)
 	if err != nil {
 		return nil, err
@@ -494,5 +583,12 @@ func regionFromLayout(layout string) (*sim.Region, error) {
 			specs[i].ID = idBase + specs[i].Store
 		}
 	}
-	return sim.BuildRegion(1, specs, idBase), nil
+	if id == 0 {
+		id = 1
+	}
+	r := sim.BuildRegion(id, specs, idBase)
+	if confVer != 0 {
+		r.ConfVer = confVer
+	}
+	return r, nil
 }
